@@ -81,44 +81,45 @@ fn scalar_forms(r: &mut Rec, rng: &mut Rng) {
     let s32: u32 = *rng.pick(&[0u32, 1, u32::MAX, 0x8000_0000]);
     let s64: u64 = *rng.pick(&LANDMARKS);
     let s128: u128 = *rng.pick(&[0u128, 1, u64::MAX as u128, (u64::MAX as u128) + 1, u128::MAX, u128::MAX - 1, 1u128 << 127]);
-    let ex = |s: &Sc| format!("\"ty\":\"U\",\"sc\":{}", sc_list(&[s.clone()]));
-    r.op("add_sc", "ref_u32", &[u(0)], &[u(2)], &ex(&s32.sc()), |g| {
+    let ex = |s: &Sc| ex_sc("U", &[s.clone()], "rc");
+    let exr = |s: &Sc| ex_sc("U", &[s.clone()], "cr");
+    r.op("add", "ref_u32", &[u(0)], &[u(2)], &ex(&s32.sc()), |g| {
         g.u[2] = &g.u[0] + s32;
         Ret::none()
     });
-    r.op("add_sc", "val_u64", &[u(0)], &[u(2)], &ex(&s64.sc()), |g| {
+    r.op("add", "val_u64", &[u(0)], &[u(2)], &ex(&s64.sc()), |g| {
         g.u[2] = g.u[0].clone() + s64;
         Ret::none()
     });
-    r.op("add_sc", "val_u128", &[u(0)], &[u(2)], &ex(&s128.sc()), |g| {
+    r.op("add", "val_u128", &[u(0)], &[u(2)], &ex(&s128.sc()), |g| {
         g.u[2] = g.u[0].clone() + s128;
         Ret::none()
     });
-    r.op("add_sc", "u128_val", &[u(0)], &[u(2)], &ex(&s128.sc()), |g| {
+    r.op("add", "u128_val", &[u(0)], &[u(2)], &exr(&s128.sc()), |g| {
         g.u[2] = s128 + g.u[0].clone();
         Ret::none()
     });
-    r.op("sub_sc", "val_u32", &[u(0)], &[u(2)], &ex(&s32.sc()), |g| {
+    r.op("sub", "val_u32", &[u(0)], &[u(2)], &ex(&s32.sc()), |g| {
         g.u[2] = g.u[0].clone() - s32;
         Ret::none()
     });
-    r.op("sub_sc", "val_u64", &[u(0)], &[u(2)], &ex(&s64.sc()), |g| {
+    r.op("sub", "val_u64", &[u(0)], &[u(2)], &ex(&s64.sc()), |g| {
         g.u[2] = g.u[0].clone() - s64;
         Ret::none()
     });
-    r.op("sub_sc", "val_u128", &[u(0)], &[u(2)], &ex(&s128.sc()), |g| {
+    r.op("sub", "val_u128", &[u(0)], &[u(2)], &ex(&s128.sc()), |g| {
         g.u[2] = g.u[0].clone() - s128;
         Ret::none()
     });
-    r.op("rsub_sc", "u64_val", &[u(0)], &[u(2)], &ex(&s64.sc()), |g| {
+    r.op("sub", "u64_val", &[u(0)], &[u(2)], &exr(&s64.sc()), |g| {
         g.u[2] = s64 - g.u[0].clone();
         Ret::none()
     });
-    r.op("rsub_sc", "u128_val", &[u(0)], &[u(2)], &ex(&s128.sc()), |g| {
+    r.op("sub", "u128_val", &[u(0)], &[u(2)], &exr(&s128.sc()), |g| {
         g.u[2] = s128 - g.u[0].clone();
         Ret::none()
     });
-    r.op("rsub_sc", "u32_ref", &[u(0)], &[u(2)], &ex(&s32.sc()), |g| {
+    r.op("sub", "u32_ref", &[u(0)], &[u(2)], &exr(&s32.sc()), |g| {
         g.u[2] = s32 - &g.u[0];
         Ret::none()
     });
